@@ -14,7 +14,8 @@ const stackTraceLineLength = 24
 func (self *VM) SourceMap(frame CallFrame) errors.Span {
 	instructionsOfCurrFn := len(self.Program.SourceMap[frame.Function])
 	if instructionsOfCurrFn == 0 {
-		panic(fmt.Sprintf("Empty function: `%s`", frame.Function))
+		// An empty routine (the `@init` of a module without module state) has no source position.
+		return errors.Span{}
 	}
 
 	if frame.InstructionPointer >= uint(len(self.Program.SourceMap[frame.Function])) {
